@@ -46,6 +46,8 @@ def events(labels):
             ev.append(("write", obj, name))
     ev.append(("write_equal", "d", "foo"))   # assign an equal but distinct object over the current value (through link-to-link)
     ev.append(("write_equal", "a", "foo"))
+    ev.append(("write_none", "c", "bar"))    # None is a value like any other (not "missing")
+    ev.append(("write_none", "a", "foo"))
     ev.append(("write", "b", "foo"))     # an unrelated node
     ev.append(("write", "e", "bar"))     # a link into another tree (e -> b)
     for op in (("setp", "c", "b"), ("setp", "a", "c"), ("setp", "d", "a"), ("setp", "c", None), ("delc", "c"),
@@ -125,10 +127,17 @@ def run_sequence(t, witness, seq):
     for k, ev in enumerate(seq):
         step = k + 1
         value = ["v%d" % step, step]
-        if ev[0] == "write_equal":
+        if ev[0] == "write_none":
+            setattr(nodes[ev[1]], ev[2], None)
+            model[final_target(ev[1], direct)][ev[2]] = None
+            t.c["none_writes"] += 1
+            st2 = check("after writing None to %s.%s" % (ev[1], ev[2]))
+            if st2 is False:
+                return
+        elif ev[0] == "write_equal":
             cur = model[final_target(ev[1], direct)].get(ev[2])
-            if cur is None:
-                continue  # nothing to be equal to yet
+            if not isinstance(cur, list):
+                continue  # nothing (list-valued) to be equal to yet
             value = list(cur)   # equal, but another object: the assignment must still be stored (identity is observable)
             setattr(nodes[ev[1]], ev[2], value)
             model[final_target(ev[1], direct)][ev[2]] = value
@@ -277,8 +286,36 @@ def check_link_positions(t):
                         {"engine": "E2", "module": MOD, "part": "link-positions", "parent_class": pcls.__name__})
 
 
+def check_long_chain(t, length=60):
+    """A long acyclic chain of links (link to link to ... to a node) is legal: reads, writes and structure work."""
+    import anytree
+
+    tgt = anytree.Node("t", colour="red")
+    chain = [tgt]
+    for i in range(length):
+        chain.append(anytree.SymlinkNode(chain[-1]))
+    top = chain[-1]
+    t.c["evaluations"] += 1
+    t.c["long_chain_checks"] += 1
+    why = None
+    if top.colour != "red" or top.name != "t":
+        why = "read through %d links does not reach the target" % length
+    top.colour = ["blue"]
+    if tgt.colour != ["blue"] or any("colour" in own_dict(l) for l in chain[1:]):
+        why = why or "write through %d links does not reach the target" % length
+    chain[30].target = anytree.Node("t2", colour="green")
+    if top.colour != "green" or chain[29].colour != ["blue"]:
+        why = why or "re-targeting the middle of the chain is not followed"
+    kid = anytree.Node("kid", parent=top)
+    if top.children != (kid,) or tgt.children != () or chain[30].children != ():
+        why = why or "children of the outermost link leak along the chain"
+    if why:
+        t.violation("C20: " + why, {"engine": "E2", "module": MOD, "part": "long-chain", "length": length})
+
+
 def job_refusing():
     t = core.Tally()
+    core.guard(t, "C20", {"engine": "E2", "module": MOD, "part": "long-chain"}, check_long_chain, t)
     core.guard(t, "C20", {"engine": "E2", "module": MOD, "part": "refusing-target"}, check_refusing_targets, t)
     core.guard(t, "C20", {"engine": "E2", "module": MOD, "part": "link-positions"}, check_link_positions, t)
     return t
@@ -313,6 +350,9 @@ def _tup(x):
 
 def replay(c):
     t = core.Tally()
+    if c.get("part") == "long-chain":
+        check_long_chain(t)
+        return [v["why"] for v in t.violations]
     if c.get("part") == "link-positions":
         check_link_positions(t)
         return [v["why"] for v in t.violations]
@@ -364,6 +404,6 @@ def run(tier):
     }
     return {"tally": t, "coverage": cov, "known": known,
             "guards": ("writes_through_links", "structural_events", "constructor_kwargs", "sequences", "refusals", "pre_hook_vetoes",
-                       "retargets", "refused_writes", "constructor_positions", "equal_value_writes"),
+                       "retargets", "refused_writes", "constructor_positions", "equal_value_writes", "none_writes", "long_chain_checks"),
             "assumptions": ["attribute names {foo, bar, name, baz, nope}; bounded universes", "C03 known findings apply to link nodes "
                             "identically (same setter code) and are matched exactly as in C03"]}
